@@ -254,6 +254,7 @@ func (e *engine) runC12() {
 	e.rep.Require("enc.via-wrapper:small-order-recipient", "enc.via-direct:small-order-recipient", "enc.via-wrapper:random-recipient", "enc.via-direct:random-recipient", "enc.via-wrapper:honest", "enc.via-direct:honest", "dec.nil-key", "enc.nil-key")
 	keys := []*key{e.newKey(), e.newKey(), e.newKey()}
 	sizes := []int{0, 1, 2, 15, 16, 17, 31, 32, 33, 100, 1000, 4096}
+	e.runC12Concurrent(keys) // round trips under overlapping calls (c12conc.go)
 	n := 17 * e.a.Scale
 	for i := 0; i < n; i++ {
 		k := keys[i%3]
